@@ -11,7 +11,7 @@ trap 'git -C /repo worktree remove --force "$WT" 2>/dev/null; rm -rf "$WT"' EXIT
 demo() { # runs the demonstration in $WT; prints PASS/FAIL
   if [ -f "$D/demo_test.go" ]; then
     cp "$D/demo_test.go" "$WT/zz_demo_test.go"
-    NAME=$(grep -oE 'func (Test[A-Za-z0-9_]+)' "$D/demo_test.go" | head -1 | awk '{print $2}')
+    NAME=$(grep -oE 'func (Test[A-Za-z0-9_]+)' "$D/demo_test.go" | grep -v TestMain | head -1 | awk '{print $2}')
     (cd "$WT" && timeout 600 go test -tags verif -run "^${NAME}\$" -count=1 . >/tmp/seed.demo.out 2>&1); rc=$?
     rm -f "$WT/zz_demo_test.go"
   elif [ -x "$D/demo.sh" ]; then
